@@ -47,7 +47,7 @@ func verifHas(l []table.FileNumber, n table.FileNumber) bool {
 
 func verifC02Snapshots() {
 	verifInstallFS()
-	vs, fv, err := verifOpen("/store")
+	vs, fv, err := verifOpen(verifStoreDir())
 	verifAssert(err == nil, "open")
 	// initial content: one level-0 file
 	n1 := vs.NextFileNumber()
@@ -66,7 +66,17 @@ func verifC02Snapshots() {
 		first := verifNumbers(snap.GetCurrent().GetAllFiles())
 		held = first
 		holding = true
+		// the obsolete-file cleanup may run at any moment: whenever the reader looks, the files of its
+		// snapshot are among the files the cleanup keeps
+		live := verifNumbers(fv.GetAllActiveFiles())
+		for _, n := range first {
+			verifAssert(verifHas(live, n), "the files of a held snapshot are alive (seen by the reader)")
+		}
 		verifYield()
+		live = verifNumbers(fv.GetAllActiveFiles())
+		for _, n := range first {
+			verifAssert(verifHas(live, n), "the files of a held snapshot are alive (seen by the reader)")
+		}
 		second := verifNumbers(snap.GetCurrent().GetAllFiles())
 		verifAssert(verifSameNumbers(first, second), "a held snapshot keeps showing exactly the files it had when it was taken")
 		// the snapshot shows the state after k commits for some k >= commitsBefore:
@@ -126,7 +136,7 @@ func verifC02Snapshots() {
 
 func verifC02Reach() {
 	verifInstallFS()
-	vs, fv, _ := verifOpen("/store")
+	vs, fv, _ := verifOpen(verifStoreDir())
 	n1 := vs.NextFileNumber()
 	min := uint32(verifRange("minKey", 0, 100))
 	el := NewEditLog(1)
